@@ -314,7 +314,9 @@ func vecBlock(name string, v ad.ConstVector) block {
 	return b
 }
 
-func scalarBlock(name string, s ad.ConstScalar) block { return block{name: name, s: []ad.ConstScalar{s}} }
+func scalarBlock(name string, s ad.ConstScalar) block {
+	return block{name: name, s: []ad.ConstScalar{s}}
+}
 
 // oracle knows the mathematics of one problem instance.
 type oracle interface {
@@ -335,14 +337,14 @@ type oracle interface {
 }
 
 type problem struct {
-	routine string
-	opts    string
-	class   string
-	in      []*input
-	storage []string // per input
-	exec    func(args []any, st *any) ([]block, error)
-	orc     func(pb *problem, floatVals []float64, exec func(ins []*input) ([]float64, string)) oracle
-	ticks   int64
+	routine   string
+	opts      string
+	class     string
+	in        []*input
+	storage   []string // per input
+	exec      func(args []any, st *any) ([]block, error)
+	orc       func(pb *problem, floatVals []float64, exec func(ins []*input) ([]float64, string)) oracle
+	ticks     int64
 	baseTicks int64 // loop iterations of the case's own float run
 	// iterative: the routine stops on a convergence threshold; a derivative
 	// failure is re-examined at nearby inputs (see persistent)
